@@ -1,26 +1,26 @@
 /* C24 — replay of the solver's answer against the REAL parsec-ptgpp and the C compiler.
- * The spec's gen() writes a JDF with NR READ + NW WRITE + NC CTL + NX RW flows into the query
- * directory, runs the parsec-ptgpp built from the current sources on it and compiles the emitted
+ * The spec's gen() writes a JDF (a given number of READ/WRITE/CTL/RW flows, or of named locals and
+ * local indices) into the query directory, runs the parsec-ptgpp built from the current sources on it and compiles the emitted
  * C with `gcc -fsyntax-only`; the two exit codes arrive here as c24_result.h.  No symbolic input:
  * this query only ties the symbolic-AST verdict to the observable behaviour of the real tool. */
 #include "vp_harness.h"
-#include "c24_result.h"      /* PTGPP_RC, CC_RC, NFLOWS_TOTAL, NFLOWS_READ, NFLOWS_WRITE */
+#include "c24_result.h"      /* PTGPP_RC, CC_RC, OVER_LIMIT (program exceeds a runtime limit), IN_KF_CLASS (recorded failing class) */
 int main(void)
 {
     int dummy = IN_RANGE(0, 0);
 #if defined(KF_EXCLUDE_C24_TOTAL_FLOWS)
-    if (NFLOWS_TOTAL > 20 && NFLOWS_READ <= 20 && NFLOWS_WRITE <= 20) {
+    if (IN_KF_CLASS) {
 #ifdef WITNESS
         VWITNESS("query excluded: this concrete program is in the recorded failing class (known finding)");
 #endif
         return 0;
     }
 #elif defined(KF_ONLY_C24_TOTAL_FLOWS)
-    VASSUME(NFLOWS_TOTAL > 20 && NFLOWS_READ <= 20 && NFLOWS_WRITE <= 20);
+    VASSUME(IN_KF_CLASS);
 #endif
     VASSERTM(!(PTGPP_RC == 0 && CC_RC != 0), "a program accepted by parsec-ptgpp (exit 0) compiles without errors");
-    VASSERTM((PTGPP_RC != 0) == (NFLOWS_TOTAL > 20 || NFLOWS_READ > 20 || NFLOWS_WRITE > 20), "programs exceeding the flow limits are rejected, the others accepted");
-#if defined(WITNESS) && !(defined(KF_EXCLUDE_C24_TOTAL_FLOWS) && NFLOWS_TOTAL > 20 && NFLOWS_READ <= 20 && NFLOWS_WRITE <= 20)
+    VASSERTM((PTGPP_RC != 0) == (OVER_LIMIT != 0), "programs exceeding a runtime limit are rejected, the others accepted");
+#if defined(WITNESS) && !(defined(KF_EXCLUDE_C24_TOTAL_FLOWS) && IN_KF_CLASS)
     if (dummy == 0) VWITNESS("real parsec-ptgpp and cc were run");
 #endif
     return 0;
